@@ -18,9 +18,9 @@ from tools.props import c06_ts as tsread
 from tools.props import c06_routes as routes
 
 MANIFEST = {
-    "level_text": "Coq theorems (Properties/C06.v, 42 theorems, no axioms) about a Gallina transcription of serde_parser.rs (skip by substring test, rename / rename_all by the whole-key scanner find_key / written_value on the proc_macro2 token string), struct_parser.rs (unraw names, skip filter for fields and variants), NamingContext::apply_naming_convention / compute_field_name / compute_variant_name and serde-rename-rule's apply_to_field / apply_to_variant: for every configured default_field_case, container kind, container rename_all, identifier (plain or raw; ASCII under every rule, UTF-8 under every field rule and the PascalCase / lowercase / UPPERCASE variant rules and under camelCase with an ASCII first character) and attribute list (rename = any string, skip, any other name / name = any string, in any order, in one or several #[serde] attributes) in every legal serde spelling (rename = v, rename(serialize = v, deserialize = w), likewise rename_all, other container keys anywhere), for unit / tuple / struct variants, outside four narrow recorded classes (C06-2, -3, -4, -5) and the configuration class C06-7 the emitted names are exactly serde's wire names (serde_derive case.rs apply_to_field / apply_to_variant, item rename wins, absent iff skip) (C06_names_cfg; C06_names for the default configuration, where C06-7 is empty); other attributes are inert there; each class has a computed counterexample; the run-time oracle is proved exact (C06_oracle_exact). String level, every byte string: js_unescape inverts escape_js, a quoted key or enum literal lexes (Spec/TsLex) to one string token whose decoded body is the name, the key token before the colon decodes to the name whichever form ts_key chose, and for the enum alias template the text of any non-empty literal list lexes to its tokens and the type parser plus lits_of_ty read exactly the names back; the five sequential replaces of the escape functions are proved to be the character-wise map (C06_escape_code_charwise); whole declarations: for every identifier N, every member list (key bare or quoted as ts_key chose, optional marker, any value text that lexes before the separator and is read as one unit by the type / expression parser) and every non-empty name list, the text of the interface, of the enum alias, of the z.object constant and of the z.enum constant as the templates print them is read by lex_module + parse_module + read_keys (the reader the run-time check applies to types.ts) as exactly the serialized names (C06_read_interface / _alias / _zobject / _zenum, with the list-level lemmas C06_interface_members_read through p_members, C06_zobject_props_read through p_props, C06_zenum_array_read through p_exlist). Tied to /repo on every run (library API, the real CLI binary through init / generate / -c / tauri.conf.json, and the build-script entry point): ~10^4 containers through the real StructParser, FieldContext and both generators (keys read back from types.ts) against the extracted model and oracle, the printed declaration of every case compared byte for byte with the extracted model text, and the specification against the real serde_derive on 45 containers (20 of them with non-ASCII identifiers).",
+    "level_text": "Coq theorems (Properties/C06.v, 44 theorems, no axioms) about a Gallina transcription of serde_parser.rs (skip by substring test, rename / rename_all by the whole-key scanner find_key / written_value on the proc_macro2 token string), struct_parser.rs (unraw names, skip filter for fields and variants), NamingContext::apply_naming_convention / compute_field_name / compute_variant_name and serde-rename-rule's apply_to_field / apply_to_variant: for every configured default_field_case, container kind, container rename_all, identifier (plain or raw; ASCII under every rule, UTF-8 under every field rule and the PascalCase / lowercase / UPPERCASE variant rules and under camelCase with an ASCII first character) and attribute list (rename = any string, skip, any other name / name = any string, in any order, in one or several #[serde] attributes) in every legal serde spelling (rename = v, rename(serialize = v, deserialize = w), likewise rename_all, other container keys anywhere), for unit / tuple / struct variants, outside four narrow recorded classes (C06-2, -3, -4, -5) and the configuration class C06-7 the emitted names are exactly serde's wire names (serde_derive case.rs apply_to_field / apply_to_variant, item rename wins, absent iff skip) (C06_names_cfg; C06_names for the default configuration, where C06-7 is empty); other attributes are inert there; each class has a computed counterexample; the run-time oracle is proved exact (C06_oracle_exact). String level, every byte string: js_unescape inverts escape_js, a quoted key or enum literal lexes (Spec/TsLex) to one string token whose decoded body is the name, the key token before the colon decodes to the name whichever form ts_key chose, and for the enum alias template the text of any non-empty literal list lexes to its tokens and the type parser plus lits_of_ty read exactly the names back; the five sequential replaces of the escape functions are proved to be the character-wise map (C06_escape_code_charwise); whole declarations: for every identifier N, every member list (key bare or quoted as ts_key chose, optional marker, any value text that lexes before the separator and is read as one unit by the type / expression parser) and every non-empty name list, the text of the interface, of the enum alias, of the z.object constant and of the z.enum constant as the templates print them is read by lex_module + parse_module + read_keys (the reader the run-time check applies to types.ts) as exactly the serialized names (C06_read_interface / _alias / _zobject / _zenum, with the list-level lemmas C06_interface_members_read through p_members, C06_zobject_props_read through p_props, C06_zenum_array_read through p_exlist). Tied to /repo on every run (library API, the real CLI binary through init / generate / -c / tauri.conf.json, and the build-script entry point): ~10^4 containers through the real StructParser, FieldContext and both generators (keys read back from types.ts) against the extracted model and oracle, the printed declaration of every case compared byte for byte with the extracted model text, and the specification against the real serde_derive on 45 containers (20 of them with non-ASCII identifiers).",
     "design_ref": "DESIGN.md section 5 C06",
-    "level_note": "Non-ASCII identifiers are in the domain exactly where serde_derive computes with ASCII operations (every field rule; PascalCase / lowercase / UPPERCASE variant rules; camelCase when the first character of the PascalCase form / variant name is ASCII - otherwise the derive macro panics and the type does not compile); the four SnakeCase-based variant rules call char::is_uppercase (Unicode), for which no table exists in the development, and stay ASCII-only. String level: ts_key's Unicode test is_identifier_name is a parameter (the bare flag of a member, constrained only by bare -> identifier bytes); the text after a colon (TypeScript type, Zod expression) is abstract - any text that lexes before the separator and is read as one unit by ptype / p_expr 62, which C10's round trips establish for its domain but are not composed with C06 inside Coq (different lexing boundary); an enum without literals (never / z.never()) and the rest of the file (header, imports, z.infer alias, other declarations) are outside the four declaration texts and covered by the run-time reader only. The declaration texts of the model are compared with the real types.ts byte for byte on every case (differential). The specification of serde's rules is a transcription of serde_derive's case.rs, compared on every run with types derived by the real serde_derive on 45 fixed containers (finite validation). The tie between model and code is differential (bounded).",
+    "level_note": "Non-ASCII identifiers are in the domain exactly where serde_derive computes with ASCII operations (every field rule; PascalCase / lowercase / UPPERCASE variant rules; camelCase when the first character of the PascalCase form / variant name is ASCII - otherwise the derive macro panics and the type does not compile); the four SnakeCase-based variant rules call char::is_uppercase (Unicode), for which no table exists in the development, and stay ASCII-only. String level: ts_key's Unicode test is_identifier_name is a parameter (the bare flag of a member, constrained only by bare -> identifier bytes); the text after a colon (TypeScript type, Zod expression) is abstract - any text that lexes before the separator and is read as one unit by ptype / p_expr 62, of which the parsing half is discharged for every normal-form type tree / Zod expression by C10's round trips (C06_reads_type, C06_reads_expr) while the lexing half stays a premise (C10's lexing lemmas use a boundary that does not admit the semicolon); an enum without literals (never / z.never()) and the rest of the file (header, imports, z.infer alias, other declarations) are outside the four declaration texts and covered by the run-time reader only. The declaration texts of the model are compared with the real types.ts byte for byte on every case (differential). The specification of serde's rules is a transcription of serde_derive's case.rs, compared on every run with types derived by the real serde_derive on 45 fixed containers (finite validation). The tie between model and code is differential (bounded).",
     "technique": "Rocq/Coq proof over hand-written model + correspondence check (extracted OCaml vs Rust harness)"
 }
 
